@@ -649,3 +649,12 @@ def minimize(case, fails):
 
 def sample(case, res):
     return {'doc': case['doc'][:160], 'ops': res['summary']['ops'][:10]}
+
+
+def vacuity(agg):
+    runs = agg['runs']
+    unmet = agg['counters'].get('precondition_unmet', 0)
+    if runs and unmet > 0.5 * runs:
+        return ('%d of %d documents were not admitted (do not parse / round-trip / have consistent views before the '
+                'first edit): the edit histories were not exercised' % (unmet, runs))
+    return None
